@@ -173,7 +173,18 @@ def _null_history(ctx, pydrex, case):
         eps = H.strain_upto(H.N - 1)
         bound = 5e-3 + 1e-3 * (H.N + 2 * eps)
         rel = float(np.abs(F - Fref).max() / np.abs(Fref).max())
-        ctx.check("F_follows_reference", rel <= bound, case, rel=rel, bound=bound)
+        okF = rel <= bound
+        key, expl = "F_follows_reference", None
+        if not okF and case["L"]["mode"] != "const":
+            # known finding K10 (see C06): re-run with a capped solver step; agreement then = adaptive steps skipped a variation of L
+            key = "F_equals_reference/adaptive_steps_skip_variation_of_L"
+            try:
+                mb = H.mineral()
+                Fb = H.run(mb, solver_kw={"max_step": abs(H.ts[1] - H.ts[0]) / 25 if len(H.ts) > 1 else None})
+                expl = bool(float(np.abs(Fb - Fref).max() / np.abs(Fref).max()) <= bound)
+            except Exception:
+                expl = False
+        ctx.check("F_follows_reference", okF, case, key=key, explained=expl, rel=rel, bound=bound)
     ctx.check("snapshot_count", len(m.orientations) == H.N + 1 and len(m.fractions) == H.N + 1, case)
     if len(ctx.samples) < 3:
         ctx.sample(case, dA=dA, df=df)
